@@ -507,7 +507,7 @@ int main(void) {
   while (next_case()) {
     if (vntok == 0) { end_case(); continue; }
     ncand = 0;
-    alarm(10);   /* watchdog: a case takes milliseconds; a hang (e.g. a non-terminating binary search) kills the
+    alarm(30);   /* watchdog: a case takes milliseconds; a hang (e.g. a non-terminating binary search) kills the
                     driver, which the pipeline reports as a crash on this case */
     /* comparisons refine the isolating intervals of the pool's algebraic numbers in place (ever longer dyadic
        end points, ever slower comparisons): rebuild the pool now and then */
